@@ -522,6 +522,13 @@ package table
 // from C17 "routes received from a VRF neighbour are exported with the VRF's RD and export targets": every family a
 // VRF neighbour may negotiate is converted - the route never goes on unchanged (newFamily stays 0 only on the
 // "not a VRF family" exit); flowspec is one of those families (AddPeer allows it, Vrf.ToGlobalPath converts it)
+// from C11 "last action per key": the key of a route is (family, NLRI as text); a route whose NLRI is rewritten (an
+// API route put into a VRF gets the VRF's RD) gets its key text rewritten with it, or the same prefix in two VRFs
+// counts as one destination when changes are coalesced
+//@ func (*Vrf).ToGlobalPath
+//@   tag C17 C11
+//@   claims at-call
+//@   at-call bgp.NewPathAttributeMpReachNLRI(path.family requires called(setNLRI)
 //@ func (*Path).ToGlobal
 //@   requires p != nil && vrf != nil
 //@   claims at-return
